@@ -171,6 +171,9 @@ pub enum Op {
     /// clone the handle, create n input structs through the clone, drop the clone: leaves a
     /// partially filled page behind for other handles to pick up (C24)
     Prefill(u8),
+    /// request node n through a temporary clone of the handle, which is dropped afterwards (the
+    /// clone's partially filled table pages go back to the database)
+    QClone(u8),
     /// drop this thread's handle and continue on a fresh clone of it (C24; E2 reader threads only)
     Reclone,
     /// request node n through the tracked fn of another kind (two functions on one struct instance)
